@@ -26,6 +26,7 @@ pub enum Act {
     Cancel(String),
     Clock(String),
     Rand(String),
+    Fail,
 }
 
 #[derive(Clone, Debug)]
@@ -40,6 +41,8 @@ pub struct Rule {
 pub struct Script {
     pub rules: Vec<Rule>,
     pub record: bool,
+    /// emit the actions in the order the Python bridge relays them: sends, local sends, timer operations
+    pub canon: bool,
 }
 
 pub fn parse_data(tok: &str) -> Data {
@@ -63,6 +66,7 @@ pub fn parse_act(tok: &str) -> Act {
         "C" => Act::Cancel(parts[1].to_string()),
         "K" => Act::Clock(parts[1].to_string()),
         "R" => Act::Rand(parts[1].to_string()),
+        "X" => Act::Fail,
         _ => panic!("bad action {}", tok),
     }
 }
@@ -77,6 +81,18 @@ pub fn parse_rule(ws: &[&str]) -> Rule {
 }
 
 /// delays travel as integers in half units
+/// rules as the JSON the Python twin parses: [[st, trig, st2, [action tokens]], ...]
+pub fn rules_json(rule_lines: &[Vec<String>]) -> String {
+    let items: Vec<String> = rule_lines
+        .iter()
+        .map(|w| {
+            let acts: Vec<String> = w[3..].iter().map(|a| format!("{:?}", a)).collect();
+            format!("[{}, {:?}, {}, [{}]]", w[0], w[1], w[2], acts.join(", "))
+        })
+        .collect();
+    format!("[{}]", items.join(", "))
+}
+
 pub fn delay_of(units: u64) -> f64 {
     units as f64 * 0.5
 }
@@ -121,7 +137,7 @@ impl ScriptProc {
         format!("{}|{}", st, h.join("."))
     }
 
-    fn react(&mut self, trig: String, data: &str, ctx: &mut Context) {
+    fn react(&mut self, trig: String, data: &str, ctx: &mut Context) -> Result<(), String> {
         if self.script.borrow().record {
             self.hist.push(trig_code(&trig));
         }
@@ -134,7 +150,19 @@ impl ScriptProc {
             .cloned();
         if let Some(rule) = rule {
             self.st = rule.st2;
-            for act in &rule.acts {
+            let mut acts: Vec<Act> = vec![];
+            // a failing handler issues nothing (the Python twin raises before anything is relayed)
+            if rule.acts.iter().any(|a| *a == Act::Fail) {
+                return Err("scripted failure".to_string());
+            }
+            if self.script.borrow().canon {
+                acts.extend(rule.acts.iter().filter(|a| matches!(a, Act::Send(..))).cloned());
+                acts.extend(rule.acts.iter().filter(|a| matches!(a, Act::Local(..) | Act::Clock(..) | Act::Rand(..))).cloned());
+                acts.extend(rule.acts.iter().filter(|a| matches!(a, Act::Set(..) | Act::Once(..) | Act::Cancel(..))).cloned());
+            } else {
+                acts = rule.acts.clone();
+            }
+            for act in &acts {
                 let dat = |d: &Data| match d {
                     Data::Lit(s) => s.clone(),
                     Data::Echo => data.to_string(),
@@ -153,26 +181,25 @@ impl ScriptProc {
                         let r = ctx.rand();
                         ctx.send_local(Message::new(tip.clone(), format!("{:016x}", r.to_bits())))
                     }
+                    Act::Fail => {}
                 }
             }
         }
+        Ok(())
     }
 }
 
 impl Process for ScriptProc {
     fn on_message(&mut self, msg: Message, _from: String, ctx: &mut Context) -> Result<(), String> {
-        self.react(format!("M:{}", msg.tip), &msg.data, ctx);
-        Ok(())
+        self.react(format!("M:{}", msg.tip), &msg.data, ctx)
     }
 
     fn on_local_message(&mut self, msg: Message, ctx: &mut Context) -> Result<(), String> {
-        self.react(format!("L:{}", msg.tip), &msg.data, ctx);
-        Ok(())
+        self.react(format!("L:{}", msg.tip), &msg.data, ctx)
     }
 
     fn on_timer(&mut self, timer: String, ctx: &mut Context) -> Result<(), String> {
-        self.react(format!("T:{}", timer), "", ctx);
-        Ok(())
+        self.react(format!("T:{}", timer), "", ctx)
     }
 
     fn state(&self) -> Result<Rc<dyn ProcessState>, String> {
